@@ -485,16 +485,13 @@ class TlsHandshakeClientHello(TlsHandshakeHello):  # pylint: disable=too-many-in
         payload_composer.compose_parsable(self.protocol_version)
         payload_composer.compose_parsable(self.random)
         payload_composer.compose_parsable(self.session_id)
+        cipher_suites = TlsCipherSuiteVector(self.cipher_suites)
         if self.fallback_scsv:
-            self.cipher_suites.append(TlsCipherSuiteExtension.FALLBACK_SCSV)
+            cipher_suites.append(TlsCipherSuiteExtension.FALLBACK_SCSV)
         if self.empty_renegotiation_info_scsv:
-            self.cipher_suites.append(TlsCipherSuiteExtension.EMPTY_RENEGOTIATION_INFO_SCSV)
-        payload_composer.compose_numeric(len(self.cipher_suites) * self.cipher_suites.get_param().item_num_size, 2)
-        payload_composer.compose_numeric_array_enum_coded(self.cipher_suites)
-        if self.fallback_scsv:
-            del self.cipher_suites[-1]
-        if self.empty_renegotiation_info_scsv:
-            del self.cipher_suites[-1]
+            cipher_suites.append(TlsCipherSuiteExtension.EMPTY_RENEGOTIATION_INFO_SCSV)
+        payload_composer.compose_numeric(len(cipher_suites) * cipher_suites.get_param().item_num_size, 2)
+        payload_composer.compose_numeric_array_enum_coded(cipher_suites)
         payload_composer.compose_parsable(self.compression_methods)
 
         extension_bytes = self._compose_extensions(self.extensions)
